@@ -23,7 +23,7 @@ func init() {
 			`R05.6 every success return of the per-file check has passed a FILE wound emission or the copy of the file into the validating writer (no shortcut declares content valid unseen). ` +
 			`R05.8 Wound.Healthy() answers true only where Kind == CLOSED_FILE holds (every consumer skips healthy wounds). ` +
 			`R05.3 also: on each outcome of the size test after the copy every path to a success return emits a FILE wound and the wound made there spans [copied, size) resp. [size, copied) with those very values; R18.7 (shared) each file's hash group ends with the file's last block. ` +
-			`NOT decided: that wounds cover every differing offset (block-size arithmetic, drip boundaries), interplay of last-block and size checks.`,
+			`R05.9 HasWounds answers from a field that Do sets (a flag, or a counter increased by a positive constant) on every path from the outcome !Healthy(). NOT decided: that wounds cover every differing offset (block-size arithmetic, drip boundaries), interplay of last-block and size checks.`,
 		Assumptions: []string{"wound emission sites are sends (plain or in a select) on ValidatorContext.Wounds, directly or through a local closure that sends unconditionally"},
 		Run:         runC05,
 	})
@@ -151,6 +151,7 @@ func runC05(c *core.Ctx) {
 
 	ruleHealthyVerdict(c, kinds, false)
 	ruleOnlyMarkersAreHealthy(c, "R05.8", kinds)
+	ruleHasWoundsCountsEveryWound(c, "R05.9")
 	ruleHashGroupsHaveTheirLength(c, "R18.7")
 
 	// ---- R05.2
@@ -1162,4 +1163,107 @@ func ruleAggregationLosesNothing(c *core.Ctx, kinds map[string]int64) {
 			"the output can be closed while a pending wound has not been forwarded: the last damaged range of a file is lost")
 		o.Path = c.P.PathStrings(pp)
 	}
+}
+
+// ruleHasWoundsCountsEveryWound is R05.9: in the modes that do not fail fast Validate returns nil whatever it
+// found; the verdict is the consumer's HasWounds(). A missing directory, a missing or retargeted symlink and a
+// missing file that was signed as empty are wounds of size 0, so "has wounds" cannot be derived from the
+// number of corrupted bytes: HasWounds answers from a field that Do sets (a flag set true, or a counter
+// increased by a positive constant) on every path on which a wound was found not healthy.
+func ruleHasWoundsCountsEveryWound(c *core.Ctx, rule string) {
+	c.Rule(rule, "HasWounds is about wounds, not about bytes")
+	n := 0
+	for _, tn := range []string{"WoundsGuardian", "WoundsWriter", "WoundsPrinter", "ArchiveHealer"} {
+		hw := c.P.Fn("pwr", tn+".HasWounds")
+		do := c.P.Fn("pwr", tn+".Do")
+		if hw == nil || do == nil {
+			continue
+		}
+		n++
+		// the field(s) the answer is read from
+		fields := map[string]bool{}
+		direct := true
+		for _, rs := range core.Returns(hw, 0) {
+			var walk func(v ssa.Value, d int)
+			walk = func(v ssa.Value, d int) {
+				if d > 5 || v == nil {
+					return
+				}
+				for _, o := range core.Origins(v) {
+					if _, nme, ok := core.FieldOf(o); ok {
+						fields[nme] = true
+						continue
+					}
+					if bo, ok := o.(*ssa.BinOp); ok {
+						walk(bo.X, d+1)
+						walk(bo.Y, d+1)
+					}
+				}
+			}
+			walk(rs.Val, 0)
+		}
+		_ = direct
+		// stores in Do that record "a wound": true, or +k with k a positive constant
+		isRecord := func(in ssa.Instruction) bool {
+			st, ok := in.(*ssa.Store)
+			if !ok {
+				return false
+			}
+			_, nme, ok := core.FieldOf(st.Addr)
+			if !ok || !fields[nme] {
+				return false
+			}
+			if b, isB := core.ConstBool(st.Val); isB && b {
+				return true
+			}
+			if bo, ok := st.Val.(*ssa.BinOp); ok && bo.Op == token.ADD {
+				if k, isC := core.ConstInt(bo.Y); isC && k > 0 {
+					return true
+				}
+			}
+			return false
+		}
+		// the outcomes "not healthy"
+		nEdges := 0
+		var bad []ssa.Instruction
+		for _, f := range core.WithAnons(do) {
+			for _, b := range f.Blocks {
+				if len(b.Instrs) == 0 || len(b.Succs) != 2 {
+					continue
+				}
+				ifi, ok := b.Instrs[len(b.Instrs)-1].(*ssa.If)
+				if !ok {
+					continue
+				}
+				cond, neg := ifi.Cond, false
+				for {
+					if u, ok := cond.(*ssa.UnOp); ok && u.Op == token.NOT {
+						cond, neg = u.X, !neg
+						continue
+					}
+					break
+				}
+				cl, ok := cond.(*ssa.Call)
+				if !ok || !strings.HasSuffix(core.CalleeName(cl), "pwr.Wound).Healthy") {
+					continue
+				}
+				unhealthy := b.Succs[1]
+				if neg {
+					unhealthy = b.Succs[0]
+				}
+				nEdges++
+				only := func(from, to *ssa.BasicBlock) bool { return from == b && to != unhealthy }
+				// to any return, or back to this test (the next wound)
+				target := func(in ssa.Instruction) bool { return isReturn(in) || in == ssa.Instruction(ifi) }
+				if p := core.FindPathSkipping(f, ifi, target, isRecord, only); p != nil {
+					bad = p
+				}
+			}
+		}
+		okk := len(fields) > 0 && nEdges > 0 && bad == nil
+		c.Check(okk, rule, "(*pwr."+tn+").Do", "every wound found not healthy is recorded where HasWounds looks", do.Pos(),
+			"on every path from the outcome !Healthy() a flag HasWounds reads is set (or a counter it reads is increased by a positive constant)",
+			"HasWounds() of this consumer does not answer from something that every non-healthy wound sets: wounds of size 0 - a missing directory, a missing or retargeted symlink, a missing file signed as empty - leave it false, and a damaged directory is declared valid in the modes that do not fail fast").Path = c.P.PathStrings(bad)
+	}
+	c.Floor(rule, "wound consumers with HasWounds", n, 3)
 }
